@@ -37,7 +37,7 @@ def mkchar(text, fontname, x=0):
     from pdfminer.pdfcolor import PREDEFINED_COLORSPACE
     from pdfminer.pdfinterp import PDFGraphicState
     c = LTChar.__new__(LTChar)
-    c.set_bbox((x, 0, x + 5, 10))
+    c.set_bbox((x, 0, x + 5, 12))              # box height 12, width 5, font size 10: the three must not be confused by a converter
     c._text, c.fontname, c.size, c.adv, c.upright = text, fontname, 10.0, 5.0, True
     c.matrix = (1, 0, 0, 1, x, 0)
     c.ncs = PREDEFINED_COLORSPACE["DeviceGray"]
